@@ -251,6 +251,34 @@ func (w *World) recovery(img *simfs.FS, what string, op opSpec, pre map[string]s
 		}
 	}
 	r.Count("images-examined")
+	// the restarted agent carries on: a later update of the same user (possibly under another
+	// default parameter set, i.e. a record of another length) must again yield exactly one
+	// complete record followed by the unchanged auxiliary data -- leftovers of the crash in the
+	// work area are harmless only if they never leak into a later write
+	if (cls == fcOld || cls == fcNew) && w.followUp {
+		fc := w.cfg
+		fc.Default = w.cfg.Sets[w.followSet%len(w.cfg.Sets)].ID
+		img.Put("/etc/whawty/followup.yaml", []byte(fc.YAML()), 0o600)
+		if d2, err := w.newDir("/etc/whawty/followup.yaml"); err == nil {
+			var uerr error
+			w.guard("update", func() { uerr = d2.UpdateUser(op.User, "follow-up password") })
+			if uerr == nil {
+				_, content, _ := w.userFile(op.User)
+				line, rest := FirstLine(content)
+				rec, perr := ParseStrict(line)
+				fdef := w.sets[fc.Default]
+				okRec := perr == nil && strings.Contains(content, "\n") && rec.Algo == fdef.Algo && uint(rec.ParamID) == fdef.ID
+				if okRec {
+					dg := fdef.Digest("follow-up password", rec.Salt)
+					okRec = dg != nil && string(dg) == string(rec.Digest)
+				}
+				if !okRec || rest != oldAux {
+					r.Fail("crash/"+op.Kind+"/later-update-corrupted", "%s; then the restarted agent updates %s again (default set %d): the file is not 'one complete record + the unchanged auxiliary data': %s", what, op.User, fc.Default, simrt.Q(content))
+				}
+				r.Count("follow-up-updates-after-crash")
+			}
+		}
+	}
 	return cls
 }
 
